@@ -1138,6 +1138,47 @@ def run_resplit(R, r, n):
                     if out_c:
                         R.fail("C03:write-outside-extent", f"{sx[:200]}: y = T(x); x._update(...); a fitting element assignment through y "
                                f"(extent [{c0},{c1})) changed bytes {out_c[:6]} outside it", ctx)
+                if kind in ("items", "strings"):
+                    # a fitting assignment to the LAST dynamic part through the handle the update went through stays inside x
+                    ob_, o0_, o1_ = own._buffer, int(own._offset), int(own._offset) + int(own._get_size())
+                    img_o = image(ob_)
+                    try:
+                        # the extent of the part that is assigned, as the BUFFER records it (fresh view): offset entry + stored size
+                        fv0_ = type(own)._from_buffer(own._buffer, int(own._offset))
+                        if kind == "items":
+                            p0_ = o0_ + int(np.asarray(fv0_._offsets).reshape(-1)[len(fv0_) - 1])
+                        else:
+                            p0_ = int(type(fv0_).f1.get_offset(fv0_)[1])
+                        p1_ = p0_ + int.from_bytes(img_o[p0_:p0_ + 8], "little")
+                    except Exception:
+                        p0_ = p1_ = None
+                    try:
+                        if kind == "items":
+                            own[len(own) - 1] = "z"
+                        else:
+                            own.f1 = "z"
+                        if p0_ is not None:
+                            now_p = image(ob_)
+                            out_p = [i for i in range(min(len(img_o), len(now_p))) if img_o[i] != now_p[i] and not (p0_ <= i < p1_)]
+                            if out_p:
+                                R.fail("C03:write-outside-extent", f"{sx[:200]}: x._update(instance of the same size, not minimally packed); assigning 'z' to the "
+                                       f"last part of x through x (that part occupies [{p0_},{p1_})) changed bytes {out_p[:6]} of its siblings", ctx)
+                        R.tags["resplit.own-handle.write-after-update"] += 1
+                        now_o = image(ob_)
+                        out_o = [i for i in range(min(len(img_o), len(now_o))) if img_o[i] != now_o[i] and not (o0_ <= i < o1_)]
+                        if out_o:
+                            R.fail("C03:write-outside-extent", f"{sx[:200]}: x._update(instance of the same size); a fitting assignment to the last part of x "
+                                   f"through x (extent [{o0_},{o1_})) changed bytes {out_o[:6]} outside it", ctx)
+                        fv_ = type(own)._from_buffer(own._buffer, int(own._offset))
+                        got_z = str(fv_[len(fv_) - 1]) if kind == "items" else str(fv_.f1)
+                        if got_z != "z":
+                            R.fail("C10:set-through-handle-after-update-of-its-source", f"{sx[:200]}: x._update(instance of the same size); the last part of x "
+                                   f"assigned 'z' through x reads {got_z!r} in a fresh view", ctx)
+                        seen = deep_str(inner, own, cache)
+                        fresh_own = deep_str(inner, fv_, cache)
+                        want_own = fresh_own
+                    except Exception:
+                        pass
                 if seen != fresh_own:
                     R.fail("C06:handle-differs-from-view", f"{sx[:200]}: after x._update(instance of the same size) the handle x reads {seen[:120]}, a "
                            f"view rebuilt from (buffer, offset) reads {fresh_own[:120]}", ctx)
